@@ -1,4 +1,4 @@
-CONSTANTS Kinds = {"M","O","A","Q","CM","CO"} MaxLog = 6 MaxPush = 6 SliceLim = 2 ChanLim = 1 UseSeq = TRUE Tracked0 = TRUE MaxCrash = 1 Fixed = TRUE TooLongAt = 3 ChanTooLongAt = 3 DiffLimit = 2 ChanTLPush = TRUE SimDepth = 16
+CONSTANTS Kinds = {"M","O","A","Q","CM","CO","CR"} MaxLog = 6 MaxPush = 6 SliceLim = 2 ChanLim = 1 UseSeq = TRUE Tracked0 = TRUE MaxCrash = 1 Fixed = TRUE TooLongAt = 3 ChanTooLongAt = 3 DiffLimit = 2 ChanTLPush = TRUE SimDepth = 16
 INIT Init
 NEXT NextPairs
 VIEW View
